@@ -91,5 +91,53 @@ pub fn lnb_in_block(rd: &LineReader, bptr_middle: BlockP, bi_middle: BlockIndex,
     (partial_line, found_nl_b, bi_middle_end, nl_b_eof, fo_nl_b)
 }
 
+/// find_line: the same scan inside the block that holds the offset; here a line that continues into the next block is not
+/// "partial" -- the search goes on in the following blocks -- but the part taken from this block must again reach the block's end
+pub fn lnb_find_line_first_block(rd: &LineReader, bptr_middle: BlockP, bi_middle: BlockIndex, bo_middle: BlockOffset, blockoffset_last: BlockOffset, fileoffset: FileOffset)
+    -> (r: (bool, BlockIndex, bool, FileOffset, bool))
+    requires
+        rd.charsz_ == 1, rd.filesz_ >= 1, rd.blocksz_ >= 1,
+        bi_middle < bptr_middle@.len(), bptr_middle@.len() <= rd.blocksz_, bo_middle <= blockoffset_last,
+        bo_middle * rd.blocksz_ + bptr_middle@.len() <= rd.filesz_,
+        bo_middle == blockoffset_last ==> bo_middle * rd.blocksz_ + bptr_middle@.len() == rd.filesz_,
+        bo_middle < blockoffset_last ==> bo_middle * rd.blocksz_ + bptr_middle@.len() < rd.filesz_,
+    ensures
+        // r = (found_nl_b, bi_middle_end, nl_b_eof, fo_nl_b, fo_nl_b_in_middle)
+        r.0 <==> !(no_nl(bptr_middle@, bi_middle as int, bptr_middle@.len() as int) && bo_middle != blockoffset_last),
+        r.0 ==> bi_middle <= r.1 < bptr_middle@.len() && no_nl(bptr_middle@, bi_middle as int, r.1 as int) && r.3 as int == bo_middle * rd.blocksz_ + r.1 && r.4,
+        r.0 && !r.2 ==> bptr_middle@[r.1 as int] == 10u8,
+        r.2 ==> r.0 && r.1 == bptr_middle@.len() - 1 && bo_middle == blockoffset_last,
+        // C12: the line goes on in the next block: everything up to this block's last byte belongs to it
+        !r.0 ==> r.1 as int == bptr_middle@.len() - 1,
+{
+    let self_ = rd;
+    let charsz_bi: BlockIndex = rd.charsz_ as BlockIndex;
+    let filesz: FileSz = rd.filesz();
+    let mut found_nl_b: bool = false;
+    let mut fo_nl_b: FileOffset = fileoffset;
+    let mut fo_nl_b_in_middle: bool = false;
+    let mut nl_b_eof: bool = false;
+    let mut bi_middle_end: BlockIndex = bi_middle;
+//@cut slice path=src/readers/linereader.rs impl=LineReader fn=find_line anchor="let mut bi_at: BlockIndex = bi_middle;" take=range end_anchor="if !found_nl_b && bo_middle == blockoffset_last {" label=LNB-FINDLINE-B1
+//@replace "self." "self_." count=*
+//@loop 1
+            invariant_except_break
+                bi_middle <= bi_at < bi_stop, !found_nl_b,
+                no_nl(bptr_middle@, bi_middle as int, bi_at as int),
+                bi_middle_end == bi_middle, !fo_nl_b_in_middle,
+            invariant
+                bi_stop == bptr_middle@.len(), charsz_bi == 1, !nl_b_eof,
+                bo_middle * self_.blocksz_ + bptr_middle@.len() <= self_.filesz_,
+            ensures
+                bi_middle <= bi_at <= bi_stop, bi_stop == bptr_middle@.len(),
+                found_nl_b ==> bi_at < bi_stop && bptr_middle@[bi_at as int] == 10u8 && bi_middle_end == bi_at && no_nl(bptr_middle@, bi_middle as int, bi_at as int)
+                    && fo_nl_b as int == bo_middle * self_.blocksz_ + bi_at && fo_nl_b_in_middle,
+                !found_nl_b ==> bi_at == bi_stop && no_nl(bptr_middle@, bi_middle as int, bi_stop as int) && bi_middle_end == bi_middle,
+                !nl_b_eof,
+            decreases bi_stop - bi_at,
+//@end
+    (found_nl_b, bi_middle_end, nl_b_eof, fo_nl_b, fo_nl_b_in_middle)
+}
+
 } // verus!
 fn main() {}
